@@ -1123,6 +1123,7 @@ def _leaf_preds():
         st.tuples(st.just("gt"), _k).map(list),
         st.tuples(st.just("in"), st.integers(0, 1), st.booleans()).map(list),
         st.tuples(st.just("in"), st.integers(0, 1), st.just(False)).map(list),
+        st.tuples(st.just("in"), st.integers(0, 1), st.just(False)).map(list),
     )
 
 
@@ -1152,7 +1153,7 @@ def _programs(draw):
         "fam": draw(st.integers(0, len(FAMILIES) - 1)),
         "shape": shape,
         "binds": draw(st.lists(_bindspec(), min_size=3, max_size=8)),
-        "inl": draw(st.lists(_inlspec(), min_size=0, max_size=2)),
+        "inl": draw(st.one_of(st.lists(_inlspec(), min_size=1, max_size=2), st.lists(_inlspec(), min_size=1, max_size=2), st.lists(_inlspec(), min_size=0, max_size=1))),
         "ctes": draw(st.lists(st.fixed_dictionaries({"items": st.lists(_leaf_items(), min_size=1, max_size=3), "preds": st.lists(_leaf_preds(), max_size=2),
                                                       "tbl": st.booleans(), "lim": st.booleans()}), max_size=2)),
         "sel": draw(st.lists(_items, min_size=1, max_size=4)),
@@ -1188,8 +1189,8 @@ def _many_programs(draw):
 
 def subs(tier):
     return [
-        Generated("stmt", check_stmt, strategy=_programs(), quick=1000, thorough=60000, budget_s_quick=14.0),
-        Generated("live", check_live, strategy=_programs(), quick=800, thorough=40000, budget_s_quick=12.0),
-        Generated("many", check_many, strategy=_many_programs(), quick=600, thorough=20000, budget_s_quick=8.0),
-        Generated("many_live", check_many_live, strategy=_many_programs(), quick=300, thorough=15000, budget_s_quick=8.0),
+        Generated("stmt", check_stmt, strategy=_programs(), quick=1600, thorough=60000, budget_s_quick=20.0),
+        Generated("live", check_live, strategy=_programs(), quick=1200, thorough=40000, budget_s_quick=10.0),
+        Generated("many", check_many, strategy=_many_programs(), quick=1000, thorough=20000, budget_s_quick=6.0),
+        Generated("many_live", check_many_live, strategy=_many_programs(), quick=600, thorough=15000, budget_s_quick=5.0),
     ]
